@@ -29,6 +29,16 @@ pub mod checks {
             e.0 += 1;
             if e.1.len() < 3 { e.1.push(w); }
         }
+        pub fn merge(&mut self, o: Report) {
+            self.evaluations += o.evaluations;
+            self.nontrivial += o.nontrivial;
+            for (k, (n, w)) in o.failures {
+                let e = self.failures.entry(k).or_insert((0, vec![]));
+                e.0 += n;
+                for x in w { if e.1.len() < 3 { e.1.push(x); } }
+            }
+            for x in o.samples { if self.samples.len() < 6 { self.samples.push(x); } }
+        }
         pub fn to_json(&self) -> Value {
             let f: Vec<Value> = self.failures.iter().map(|(k, (n, w))| {
                 let mut it = k.splitn(2, '|');
@@ -130,13 +140,14 @@ pub mod checks {
         let mut union_multi = false;
         let want = { let c = Ctx::new(doc); let r = c.query(q); union_multi = c.union_multi.get(); r };
         let got = catch_unwind(AssertUnwindSafe(|| js_path_process(q, doc)));
-        let mut feats = features(&q.segments, docv);
-        // the known finding on union order needs a multi-selector segment that receives MORE THAN ONE input node
-        if !union_multi { feats.retain(|f| f != "multi-selector-segment"); }
+        // input class of the failing input (computed only when something fails)
+        let feats_of = || { let mut f = features(&q.segments, docv);
+                            // the known finding on union order needs a multi-selector segment that receives MORE THAN ONE input node
+                            if !union_multi { f.retain(|x| x != "multi-selector-segment"); } f };
         let w = |extra: Value| json!({"query": show(q), "doc": docv, "qi": ids.0, "di": ids.1, "instance": tag, "detail": extra});
         let got: Vec<QueryRef<T>> = match got {
-            Err(_) => { { let o = format!("{}.no_panic", rep.group); rep.fail(&o, &feats, w(json!("panic"))); } return None; }
-            Ok(Err(e)) => { { let o = format!("{}.ok", rep.group); rep.fail(&o, &feats, w(json!(format!("Err({})", e)))); } return None; }
+            Err(_) => { { let o = format!("{}.no_panic", rep.group); rep.fail(&o, &feats_of(), w(json!("panic"))); } return None; }
+            Ok(Err(e)) => { { let o = format!("{}.ok", rep.group); rep.fail(&o, &feats_of(), w(json!(format!("Err({})", e)))); } return None; }
             Ok(Ok(v)) => v,
         };
         if !want.is_empty() || !got.is_empty() { rep.nontrivial += 1; }
@@ -149,11 +160,15 @@ pub mod checks {
         let detail = || json!({"observed": gp.iter().map(|x| x.1.clone()).collect::<Vec<_>>(), "expected": wp.iter().map(|x| x.1.clone()).collect::<Vec<_>>()});
         let g = rep.group.clone();
         if gs != ws {
-            rep.fail(&format!("{}.members", g), &feats, w(detail()));
+            // same set of nodes but different multiplicities: duplicates lost or invented (C02); otherwise wrong nodes (C01)
+            let (mut gd, mut wd) = (gs.clone(), ws.clone());
+            gd.dedup(); wd.dedup();
+            let ob = if gd == wd { "multiplicity" } else { "members" };
+            rep.fail(&format!("{}.{}", g, ob), &feats_of(), w(detail()));
         } else if !same_seq {
-            rep.fail(&format!("{}.order", g), &feats, w(detail()));
+            rep.fail(&format!("{}.order", g), &feats_of(), w(detail()));
         } else if gp.iter().zip(wp.iter()).any(|(a, b)| a.1 != b.1) {
-            rep.fail(&format!("{}.path", g), &feats, w(detail()));
+            rep.fail(&format!("{}.path", g), &feats_of(), w(detail()));
         }
         if rep.samples.len() < 6 && !want.is_empty() && rep.evaluations % 997 == 1 {
             rep.samples.push(json!({"query": show(q), "doc": docv, "result": wp.iter().map(|x| x.1.clone()).collect::<Vec<_>>()}));
@@ -172,7 +187,6 @@ pub mod checks {
         let core: Vec<Segment> = segs.iter().filter(|s| !matches!(s, Segment::Selector(Selector::Filter(_)))).cloned().collect();
         // quick: every second first-segment (rotating with the seed); thorough: all
         for (ai, a) in core.iter().enumerate() {
-            if !thorough && (ai as u64 + seed) % 2 != 0 { continue; }
             for b in &segs { out.push(JpQuery::new(vec![a.clone(), b.clone()])); }
         }
         let n3 = if thorough { 6000 } else { 600 };
@@ -187,6 +201,10 @@ pub mod checks {
         let mut rng = Rng(seed.wrapping_mul(0x2545F4914F6CDD1D) | 1);
         let fs: Vec<Filter> = match subset {
             // function atoms only (count / length / value / match / search), plain and negated
+            // comparison atoms only (literals, singular queries from @ and $, value-typed functions), plain and negated
+            "e2e_cmp" => { let a = atoms(); let ca: Vec<Filter> = a.iter().filter(|f| matches!(f, Filter::Atom(FilterAtom::Comparison(_)))).cloned().collect();
+                           let mut v = ca.clone();
+                           v.extend(ca.iter().map(|f| Filter::Atom(FilterAtom::Filter { expr: Box::new(f.clone()), not: true }))); v }
             "e2e_fn" => { let a = atoms(); let fa: Vec<Filter> = a.iter().filter(|f| format!("{:?}", f).contains("Function(")).cloned().collect();
                           let mut v = fa.clone();
                           v.extend(fa.iter().map(|f| Filter::Atom(FilterAtom::Filter { expr: Box::new(f.clone()), not: true }))); v }
@@ -204,36 +222,47 @@ pub mod checks {
     }
     pub fn group_e2e(tier: &str, seed: u64, only: Option<(usize, usize)>) -> Report { group_e2e_named("e2e", tier, seed, only) }
     pub fn group_e2e_named(name: &str, tier: &str, seed: u64, only: Option<(usize, usize)>) -> Report {
-        let mut rep = Report::new(name);
         let ds = docs(if tier == "thorough" { 400 } else { 60 }, seed);
         let qs = if name == "e2e" { queries(tier, seed) } else { queries_subset(name, tier, seed) };
-        // quick: every query on a rotating sample of documents; thorough: every pair
-        let stride = if tier == "thorough" { 1 } else { 29 };
-        for (qi, q) in qs.iter().enumerate() {
-            for (di, d) in ds.iter().enumerate() {
-                if let Some((a, b)) = only { if (qi, di) != (a, b) { continue; } }
-                else if (qi + di) % stride != 0 && di >= always() { continue; }
-                let r1 = e2e_one(q, d, d, &mut rep, "serde_json::Value", (qi, di));
-                // C15: the same query over a second Queryable implementation of the same document
-                // quick: the second implementation on every other (query, document) pair
-                if tier != "thorough" && only.is_none() && (qi + di) % 2 == 1 { continue; }
-                let j = from_value(d);
-                let r2 = e2e_one(q, &j, d, &mut rep, "kjson::J", (qi, di));
-                if di < always() {
-                    // the same document seen through a view whose objects list their members in another order:
-                    // the result must follow THAT order (the mirror is generic in the data type)
-                    let jr = reverse_members(&j);
-                    if jr != j && (qi + di) % 3 == 0 { let _ = e2e_one(q, &jr, d, &mut rep, "kjson::J(reversed member order)", (qi, di)); }
-                }
-                if let (Some(a), Some(b)) = (r1, r2) {
-                    let pa: Vec<&String> = a.iter().map(|x| &x.1).collect();
-                    let pb: Vec<&String> = b.iter().map(|x| &x.1).collect();
-                    if pa != pb {
-                        rep.fail(&format!("{}.view_independent", name), &features(&q.segments, d), json!({"query": show(q), "doc": d, "qi": qi, "di": di, "value_paths": pa, "kjson_paths": pb}));
+        // quick: every query on the curated documents and on a rotating sample of the others; thorough: every pair
+        let stride = if tier == "thorough" { 1 } else { 7 };
+        let nthreads: usize = if only.is_some() { 1 } else { 8 };
+        let (ds, qs) = (&ds, &qs);
+        let parts: Vec<Report> = std::thread::scope(|sc| {
+            let hs: Vec<_> = (0..nthreads).map(|t| sc.spawn(move || {
+                let mut rep = Report::new(name);
+                for (qi, q) in qs.iter().enumerate() {
+                    if qi % nthreads != t { continue; }
+                    for (di, d) in ds.iter().enumerate() {
+                        if let Some((a, b)) = only { if (qi, di) != (a, b) { continue; } }
+                        else if (qi + di) % stride != 0 && di >= always() { continue; }
+                        let r1 = e2e_one(q, d, d, &mut rep, "serde_json::Value", (qi, di));
+                        // quick: the second implementation on every other (query, document) pair
+                        if tier != "thorough" && only.is_none() && (qi + di) % 2 == 1 { continue; }
+                        // C15: the same query over a second Queryable implementation of the same document
+                        let j = from_value(d);
+                        let r2 = e2e_one(q, &j, d, &mut rep, "kjson::J", (qi, di));
+                        if di < always() {
+                            // the same document seen through a view whose objects list their members in another order:
+                            // the result must follow THAT order (the mirror is generic in the data type)
+                            let jr = reverse_members(&j);
+                            if jr != j && (qi + di) % 3 == 0 { let _ = e2e_one(q, &jr, d, &mut rep, "kjson::J(reversed member order)", (qi, di)); }
+                        }
+                        if let (Some(a), Some(b)) = (r1, r2) {
+                            let pa: Vec<&String> = a.iter().map(|x| &x.1).collect();
+                            let pb: Vec<&String> = b.iter().map(|x| &x.1).collect();
+                            if pa != pb {
+                                rep.fail(&format!("{}.view_independent", name), &features(&q.segments, d), json!({"query": show(q), "doc": d, "qi": qi, "di": di, "value_paths": pa, "kjson_paths": pb}));
+                            }
+                        }
                     }
                 }
-            }
-        }
+                rep
+            })).collect();
+            hs.into_iter().map(|h| h.join().unwrap_or_else(|_| Report::new(name))).collect()
+        });
+        let mut rep = Report::new(name);
+        for p in parts { rep.merge(p); }
         rep
     }
 
